@@ -90,6 +90,16 @@ def r03a(model, ctx):
                     if isinstance(q, ast.If) and unparse(q.test) == "not signal.reset_less":
                         g = True
                     q = mod.parent(q)
+                if not g:
+                    # guard clause: `if signal.reset_less: continue` earlier in the body of the enclosing loop
+                    lp_, child = mod.parent(x), x
+                    while lp_ is not None and not isinstance(lp_, ast.For):
+                        lp_, child = mod.parent(lp_), lp_
+                    if lp_ is not None and child in lp_.body:
+                        for st in lp_.body[:lp_.body.index(child)]:
+                            if isinstance(st, ast.If) and unparse(st.test) == "signal.reset_less" and not st.orelse and \
+                                    len(st.body) == 1 and isinstance(st.body[0], ast.Continue):
+                                g = True
                 guarded = guarded and g and ok_h
         # call site guard
         calls = [c_ for c_ in ast.walk(fn) if isinstance(c_, ast.Call) and unparse(c_.func) == f"self.{meth.name}"]
